@@ -15,6 +15,10 @@ of context cancellation.  `Reach M s0 s` = `s` is reachable from `s0` by some la
 namespace Kit.Locks.C13
 open Kit.Locks
 
+theorem run3 {σ α : Type} (M : LTS σ α) {s s1 s2 s3 : σ} {a b c : α} (h1 : M.step s a = some s1)
+    (h2 : M.step s1 b = some s2) (h3 : M.step s2 c = some s3) : M.run s [a, b, c] = some s3 := by
+  simp [LTS.run, h1, h2, h3]
+
 /-! ## fifo.Mutex -/
 
 /-- At most one caller is between the completion of its send and its receive. -/
@@ -301,10 +305,6 @@ theorem ctx_position_never_increases (n : Nat) (s s' : Context.State) (a : Conte
     (∀ hd rest, s.sendq = hd :: rest → s'.sendq = rest → s'.sendq.idxOf t + 1 = s.sendq.idxOf t) :=
   Context.position_never_increases s a s' (Context.inv_reach n s h) hs t ht ht'
 
-theorem run3 {σ α : Type} (M : LTS σ α) {s s1 s2 s3 : σ} {a b c : α} (h1 : M.step s a = some s1)
-    (h2 : M.step s1 b = some s2) (h3 : M.step s2 c = some s3) : M.run s [a, b, c] = some s3 := by
-  simp [LTS.run, h1, h2, h3]
-
 /-- `Unlock/RUnlock` never blocks, and it passes the token to the longest-waiting parked caller:
 from a reachable state in which `t` has called it, `t`'s own three steps end in idle; if the
 queue was `hd :: rest`, `hd` has the token afterwards, otherwise the token is free. -/
@@ -589,36 +589,43 @@ theorem outer_slot_taken_only_when_empty (s s' : OuterCancel.State) (alt : Nat) 
 
 /-- `reader_cancel_causes`: `rcancel` cancels a reader's context (with the configured cause) for
 exactly these reasons — its own release; a grace goroutine whose timer ran the whole grace period
-after it was launched (by a writer's section, or by the deferred launch at shutdown); a grace
-goroutine woken by shutdown — and never "because rcancel had already run". -/
+after it was launched, and which was launched either by the section of a writer hold `(w, gw)` that
+really was requested (`0 < gw ≤ gen w`: `w` called `Lock` that many times at least) or — only after
+close — by the deferred launch at shutdown; a grace goroutine woken by shutdown — and never
+"because rcancel had already run". -/
 theorem reader_cancel_causes (n g : Nat) (s : OuterCancel.State)
     (h : Reach OuterCancel.lts (OuterCancel.init n g) s) (t : Tid) (why : OuterCancel.Why)
     (ht : s.told t = some why) :
     match why with
     | .own => True
-    | .timeout st => st + s.grace ≤ s.now
+    | .timeout st b => st + s.grace ≤ s.now ∧ (b = none → s.closed = true) ∧
+        (∀ w gw, b = some (w, gw) → 0 < gw ∧ gw ≤ s.gen w)
     | .closed => s.closed = true
     | .done => False := by
   have inv := OuterCancel.inv_reach n g s h
   cases why with
   | own => trivial
-  | timeout st => exact inv.tt t st ht
+  | timeout st b => exact inv.tt t st b ht
   | closed => exact inv.tc t ht
   | done => exact inv.td t ht
 
-/-- A grace goroutine launched by the deferred shutdown path, or woken by `closeCh`, exists only
-after close; one woken by its timer waited the grace period ("not before the grace period"). -/
+/-- Who launches graceful cancellations: every grace goroutine in a reachable state was launched
+by the section of a writer hold that really was requested, or (exactly when `byShutdown`) by the
+deferred launch at shutdown, which happens only after close; one woken by `closeCh` exists only
+after close; one woken by its timer waited the grace period and reports its launcher. -/
 theorem outer_grace_goroutine_facts (n g : Nat) (s : OuterCancel.State)
     (h : Reach OuterCancel.lts (OuterCancel.init n g) s) (t : Tid) (gr : OuterCancel.Grace)
     (hg : s.graces t = some gr) :
+    (gr.launchedFor = none ↔ gr.byShutdown = true) ∧
+    (∀ w gw, gr.launchedFor = some (w, gw) → 0 < gw ∧ gw ≤ s.gen w) ∧
     (gr.byShutdown = true → s.closed = true) ∧ (gr.woke = some .closed → s.closed = true) ∧
-    (∀ st, gr.woke = some (.timeout st) → st + s.grace ≤ s.now) := by
+    (∀ st b, gr.woke = some (.timeout st b) → st + s.grace ≤ s.now ∧ b = gr.launchedFor) := by
   have inv := OuterCancel.inv_reach n g s h
-  exact ⟨fun hb => inv.gc t gr hg (Or.inr hb), fun hc => inv.gc t gr hg (Or.inl hc),
-    fun st hw => inv.gt t gr st hg hw⟩
+  exact ⟨(inv.gl t gr hg).1, (inv.gl t gr hg).2, fun hb => inv.gc t gr hg (Or.inr hb),
+    fun hc => inv.gc t gr hg (Or.inl hc), fun st b hw => inv.gt t gr st b hg hw⟩
 
-/-- non-vacuity: a reader cancelled by a writer's grace timer after exactly the grace period -/
-example : ∃ s, Reach OuterCancel.lts (OuterCancel.init 2 2) s ∧ s.told 0 = some (.timeout 0) ∧
+/-- non-vacuity: a reader cancelled by writer 1's grace timer after exactly the grace period -/
+example : ∃ s, Reach OuterCancel.lts (OuterCancel.init 2 2) s ∧ s.told 0 = some (.timeout 0 (some (1, 1))) ∧
     s.pcs 0 = .rHolding ∧ s.now = 2 :=
   ⟨_, Reach.of_run Reach.init (as := [.call 0 (.rlock false), .tau 0 2, .sys 0 1, .sys 0 0, .sys 0 0,
       .sys 0 0, .tau 0 1, .ret 0 0, .call 1 .lock, .tau 1 1, .sys 0 1, .sys 0 0, .sys 0 0,
@@ -627,11 +634,119 @@ example : ∃ s, Reach OuterCancel.lts (OuterCancel.init 2 2) s ∧ s.told 0 = s
 /-- non-vacuity of the writer clauses: a running state with a granted writer and a reader still
 inside its hold that was told to stop by the grace timer -/
 example : ∃ s, Reach OuterCancel.lts (OuterCancel.init 2 2) s ∧ s.closed = false ∧
-    (s.pcs 1).slotWriter = true ∧ (s.pcs 0).reading = true ∧ s.told 0 = some (.timeout 0) :=
+    (s.pcs 1).slotWriter = true ∧ (s.pcs 0).reading = true ∧ (s.told 0).isSome = true :=
   ⟨_, Reach.of_run Reach.init (as := [.call 0 (.rlock false), .tau 0 2, .sys 0 1, .sys 0 0, .sys 0 0,
       .sys 0 0, .tau 0 1, .ret 0 0, .call 1 .lock, .tau 1 1, .sys 0 1, .sys 0 0, .sys 0 0,
       .env .tick, .env .tick, .sys 2 0, .sys 2 0, .sys 0 0, .tau 1 1]) rfl,
     by decide, by decide, by decide, by decide⟩
+
+/-- `error_holds_nothing` for OuterCancel while it is running: an `RLock` about to return an error
+(the context's error from the first select, or the error the handler answered) has no live
+registration, no hold in `ch` or in the handler's hands, no answer pending, is no writer, and if the
+slot still carries its caller id then only because the handler is about to give back the slot of
+an EARLIER, successfully answered hold of the same caller (`g < gen t`). -/
+theorem outer_error_holds_nothing (n g : Nat) (s : OuterCancel.State)
+    (h : Reach OuterCancel.lts (OuterCancel.init n g) s) (hc : s.closed = false) (t : Tid)
+    (hpc : s.pcs t = .rErr) :
+    s.live t = false ∧ (∀ g' w, s.chBuf ≠ some (t, g', w)) ∧ (∀ g' w, s.hpc.pending ≠ some (t, g', w)) ∧
+    s.resp t = none ∧ ¬ OuterCancel.inflight s t ∧ (s.pcs t).slotWriter = false ∧
+    (∀ g', s.hpc.holds = some t → s.hpc = .rel t g' → g' < s.gen t) ∧
+    (s.slot = some t → ∃ g', s.hpc = .rel t g' ∧ g' < s.gen t) := by
+  have ri := OuterCancel.rinv_reach n g s h hc
+  have hlive : s.live t = false := by
+    cases hl : s.live t with
+    | false => rfl
+    | true =>
+      rcases ri.n3 t hl with h1 | h1 | h1
+      · rw [hpc] at h1; simp at h1
+      · rw [hpc] at h1; simp [OuterCancel.PC.reading] at h1
+      · rw [hpc] at h1; simp at h1
+  have hch : ∀ g' w, s.chBuf ≠ some (t, g', w) := by
+    intro g' w e
+    have := (ri.p1 t g' w e).2.1
+    rw [hpc] at this; cases w <;> simp [OuterCancel.sentPc] at this
+  have hpe : ∀ g' w, s.hpc.pending ≠ some (t, g', w) := by
+    intro g' w e
+    have := (ri.p2 t g' w e).2.1
+    rw [hpc] at this; cases w <;> simp [OuterCancel.sentPc] at this
+  have hresp : s.resp t = none := by
+    cases hr : s.resp t with
+    | none => rfl
+    | some b => have := ri.r0 t b hr; rw [hpc] at this; simp at this
+  have hrel : ∀ g', s.hpc = .rel t g' → g' < s.gen t := by
+    intro g' e
+    have := ri.e1 t g' e
+    rcases Nat.lt_or_ge g' (s.gen t) with hlt | hge
+    · exact hlt
+    · have heq : g' = s.gen t := Nat.le_antisymm this.1 hge
+      rcases this.2 heq with h1 | h1
+      · rw [hpc] at h1; simp at h1
+      · rw [hpc] at h1; simp [OuterCancel.PC.afterGrant] at h1
+  refine ⟨hlive, hch, hpe, hresp, ?_, by simp [hpc, OuterCancel.PC.slotWriter], fun g' _ e => hrel g' e, ?_⟩
+  · intro hi; rw [hi.1] at hpc; simp at hpc
+  · intro hs
+    rcases ri.s4 t hs with h1 | h1 | h1
+    · -- the handler holds the slot for `t`: it can only be the `rel` of an earlier hold
+      generalize hh : s.hpc = hp at h1
+      cases hp <;> simp [OuterCancel.HPC.holds] at h1
+      · rename_i t' g' w; subst h1; exact absurd (by simp [hh, OuterCancel.HPC.pending]) (hpe g' w)
+      · rename_i t' g'; subst h1; exact absurd (by simp [hh, OuterCancel.HPC.pending]) (hpe g' true)
+      · rename_i t' g'; subst h1; exact ⟨g', rfl, hrel g' hh⟩
+    · rw [h1.1] at hpc; simp at hpc
+    · rw [hpc] at h1; simp [OuterCancel.PC.slotWriter] at h1
+
+/-- The boundary of `outer_error_holds_nothing`: after shutdown `RLock` can report `errLockClosed`
+although the handler has already registered the hold (`wg.Add(1)`, `rcancels` entry): both the
+answer and `closeCh` are ready in the second select. (A1 of the audit.) -/
+def shutdownRegisteredRun : List OuterCancel.L :=
+  [.call 0 (.rlock false), .tau 0 2, .sys 0 1, .sys 0 0, .sys 0 0,   -- hold sent, taken, slot, registered+answered
+   .env .shutdown, .sys 1 0,                                          -- Run's context ends, closeCh closed
+   .tau 0 0]                                                          -- RLock picks `<-o.closeCh`
+
+theorem outer_error_after_shutdown_keeps_registration_witness :
+    ∃ s, Reach OuterCancel.lts (OuterCancel.init 1 2) s ∧ s.closed = true ∧ s.pcs 0 = .rErr ∧
+      s.live 0 = true :=
+  ⟨_, Reach.of_run Reach.init (as := shutdownRegisteredRun) rfl, by decide, by decide, by decide⟩
+
+/-- … and the shutdown path itself reclaims such a registration: once the handler leaves its loop
+(`exiting`), its deferred launch and the grace goroutine's two steps (woken by `closeCh`, then
+`rcancel`) end it — nobody can be delayed by it, because after close no writer waits for readers
+except one already inside `wg.Wait()`, whose own section launched the same goroutine. -/
+theorem outer_shutdown_reclaims_registration (s : OuterCancel.State) (t : Tid)
+    (hc : s.closed = true) (hx : s.hpc = .exiting) (hl : s.live t = true) (ht : t < s.n) :
+    ∃ s', OuterCancel.lts.run s [.sys 0 0, .sys (t + 2) 1, .sys (t + 2) 0] = some s' ∧ s'.live t = false := by
+  have h1 : OuterCancel.lts.step s (.sys 0 0) =
+      some { s with graces := OuterCancel.launchAll s true none, hpc := .dead } := by
+    simp [OuterCancel.lts, OuterCancel.step, OuterCancel.stepCore, hx]
+  let s1 : OuterCancel.State := { s with graces := OuterCancel.launchAll s true none, hpc := .dead }
+  have hla : OuterCancel.launchAll s true none t =
+      some { st := s.now, byShutdown := true, launchedFor := none, woke := none } := by
+    simp [OuterCancel.launchAll, ht, hl]
+  have hg1 : s1.graces t = some { st := s.now, byShutdown := true, launchedFor := none, woke := none } := hla
+  let g2 : OuterCancel.Grace := { st := s.now, byShutdown := true, launchedFor := none, woke := some .closed }
+  let s2 : OuterCancel.State := { s1 with graces := upd s1.graces t (some g2) }
+  have h2 : OuterCancel.lts.step s1 (.sys (t + 2) 1) = some s2 := by
+    simp [OuterCancel.lts, OuterCancel.step, OuterCancel.stepCore, hla, s2, g2, s1, hc]
+  have hg2 : s2.graces t = some g2 := by simp [s2]
+  have hl2 : s2.live t = true := by simp [s2, s1, hl]
+  have h3 : OuterCancel.lts.step s2 (.sys (t + 2) 0) =
+      some { OuterCancel.rcancel s2 t .closed with graces := upd s2.graces t none } := by
+    simp [OuterCancel.lts, OuterCancel.step, OuterCancel.stepCore, hg2, g2]
+  refine ⟨_, run3 _ h1 h2 h3, ?_⟩
+  simp [OuterCancel.rcancel, hl2]
+
+/-- The boundary of `outer_mutual_exclusion` (A2 of the audit): after shutdown, a writer granted
+through the slot before shutdown and a writer granted through `shutdownLock` afterwards hold the
+lock at the same time. -/
+def twoWritersAfterShutdownRun : List OuterCancel.L :=
+  [.call 0 .lock, .tau 0 1, .sys 0 1, .sys 0 0, .sys 0 0, .sys 0 0, .tau 0 1, .ret 0 0,   -- writer 0 granted
+   .env .shutdown, .sys 1 0,
+   .call 1 .lock, .tau 1 0, .tau 1 0, .ret 1 0]                                            -- writer 1 via shutdownLock
+
+theorem outer_two_writers_after_shutdown_witness :
+    ∃ s, Reach OuterCancel.lts (OuterCancel.init 2 2) s ∧ s.closed = true ∧
+      s.pcs 0 = .wHolding false ∧ s.pcs 1 = .wHolding true :=
+  ⟨_, Reach.of_run Reach.init (as := twoWritersAfterShutdownRun) rfl, by decide, by decide, by decide⟩
 
 /-! ## Soundness of the acceptor the driver runs (trace inclusion is meaningful)
 
@@ -772,6 +887,15 @@ theorem t1_sections_wellformed :
     [fifoMap_Lock, fifoMap_Unlock, cmapMutex_acquire, cmapMutex_Lock, cmapMutex_Unlock, cmapMutex_RLock,
      cmapMutex_RUnlock, cmapMutex_Delete, cmapMutex_DeleteUnlock, cmapMutex_DeleteRUnlock,
      cmapMutex_Clear, cmapMutex_ItemCount].all methodOK = true := by decide
+
+/-- fifo.Mutex: `New` makes a 1-slot channel, `Lock` is exactly one blocking send (no fast path, no
+`select`, no timer, no loop: a parked sender never leaves the channel's queue before it is served),
+`Unlock` exactly one receive (= `FifoMutex.step`; also the item mutexes and the map lock of
+fifo.Map and `OuterCancel.shutdownLock`). -/
+theorem t1_fifomutex_shape :
+    fifoMutex_funcs = ["New", "Lock", "Unlock"] ∧ fifoMutex_New = ["make:cap1"] ∧
+    fifoMutex_Lock = ["send:lock"] ∧ fifoMutex_Unlock = ["recv:lock"] := by
+  decide
 
 /-- fifo.Map: look-up + create + `ilen++` (resp. look-up + `ilen--` + delete-at-zero) are ONE
 section of the map lock; schedule point and item-mutex operation follow outside it
